@@ -107,6 +107,51 @@ def _eq(a, b):
 # ------------------------------------------------------------------ call traces
 
 
+def _drive_call(cc, g, burn, hist, A):
+    """the operations under test on a call trace (shared by the symbolic run on the shadow module and the replay on the real one)"""
+    ch, st = g.shape[:2]
+    trace = cc.GenotypeAllelesMultiTrace(g, rnp.zeros((ch, st)), A)
+    # history: the summaries must be functionals of the retained steps whatever was asked of the objects before
+    if hist & 1:  # the un-burnt trace is queried first
+        trace.posterior().mode(genotype_support=True)
+        trace.posterior_frequencies()
+        trace.replicate_incongruence(threshold=0.6)
+    if hist & 2 and burn >= 1:  # burn-in removed in two stages, and everything asked twice
+        tb = trace.burn(1)
+        tb.posterior()
+        tb = tb.burn(burn - 1)
+        tb.posterior().as_array(A)
+        tb.posterior_frequencies()
+    else:
+        tb = trace.burn(burn)
+    post = tb.posterior()
+    return dict(post_g=[tuple(int(a) for a in r) for r in post.genotypes], post_p=[float(x) for x in post.probabilities],
+                mode=post.mode(), mode_s=post.mode(genotype_support=True), arr=post.as_array(A), freqs=tb.posterior_frequencies(),
+                inc=tb.replicate_incongruence(threshold=0.6), g=g, burn=burn, hist=hist)
+
+
+def _drive_asm(ac, g, burn, hist):
+    ch, st = g.shape[:2]
+    trace = ac.GenotypeMultiTrace(g, rnp.zeros((ch, st)))
+    if hist & 1:  # the un-burnt trace is queried first
+        trace.posterior().mode_genotype_support().mode_genotype()
+        trace.posterior().allele_frequencies(dosage=True)
+        trace.replicate_incongruence(threshold=0.6)
+    if hist & 2 and burn >= 1:  # burn-in removed in two stages, and everything asked twice
+        tb = trace.burn(1)
+        tb.posterior()
+        tb = tb.burn(burn - 1)
+        tb.posterior().allele_frequencies()
+    else:
+        tb = trace.burn(burn)
+    post = tb.posterior()
+    sup = post.mode_genotype_support()
+    return dict(post_g=[tuple(tuple(int(a) for a in h) for h in gg) for gg in post.genotypes], post_p=[float(x) for x in post.probabilities],
+                sup_g=[tuple(tuple(int(a) for a in h) for h in gg) for gg in sup.genotypes], sup_p=[float(x) for x in sup.probabilities],
+                mode=sup.mode_genotype(), af=post.allele_frequencies(), afd=post.allele_frequencies(dosage=True),
+                inc=tb.replicate_incongruence(threshold=0.6), g=g, burn=burn, hist=hist)
+
+
 def _run_call(c, col):
     cc = E.load("mchap.calling.classes")
     site = "mchap.calling.classes.GenotypeAllelesMultiTrace"
@@ -124,12 +169,8 @@ def _run_call(c, col):
                 idx.append(int(E.SymInt(E.fresh_int(ctx, "t%d" % k, 0, len(genos) - 1))))
         burn = int(E.SymInt(E.fresh_int(ctx, "burn", min(c["burns"]), max(c["burns"]))))
         g = rnp.array([genos[i] for i in idx], dtype=rnp.int8).reshape(ch, st, P)
-        trace = cc.GenotypeAllelesMultiTrace(g, rnp.zeros((ch, st)), A)
-        tb = trace.burn(burn)
-        post = tb.posterior()
-        res = dict(post_g=[tuple(int(a) for a in r) for r in post.genotypes], post_p=[float(x) for x in post.probabilities],
-                   mode=post.mode(), mode_s=post.mode(genotype_support=True), arr=post.as_array(A), freqs=tb.posterior_frequencies(),
-                   inc=tb.replicate_incongruence(threshold=0.6), g=g, burn=burn)
+        hist = int(E.SymInt(E.fresh_int(ctx, "hist", 0, 3)))
+        res = _drive_call(cc, g, burn, hist, A)
         return res
 
     first = True
@@ -144,7 +185,7 @@ def _run_call(c, col):
         r = pr.value
         problems = _check_call(c, r)
         if problems:
-            col.fail(site, problems[0][0], witness=dict(trace=r["g"].tolist(), burn=r["burn"], problems=[p[1] for p in problems][:3]), desc=problems[0][1])
+            col.fail(site, problems[0][0], witness=dict(trace=r["g"].tolist(), burn=r["burn"], hist=r["hist"], problems=[p[1] for p in problems][:3]), desc=problems[0][1])
         else:
             col.ok("call trace summaries == empirical-distribution oracle (trace and burn-in solver-enumerated)")
 
@@ -221,14 +262,8 @@ def _run_asm(c, col):
                 idx.append(int(E.SymInt(E.fresh_int(ctx, "t%d" % k, 0, len(ordered) - 1))))
         burn = int(E.SymInt(E.fresh_int(ctx, "burn", min(c["burns"]), max(c["burns"]))))
         g = rnp.array([[haps[h] for h in ordered[i]] for i in idx], dtype=rnp.int8).reshape(ch, st, P, B)
-        trace = ac.GenotypeMultiTrace(g, rnp.zeros((ch, st)))
-        tb = trace.burn(burn)
-        post = tb.posterior()
-        sup = post.mode_genotype_support()
-        res = dict(post_g=[tuple(tuple(int(a) for a in h) for h in gg) for gg in post.genotypes], post_p=[float(x) for x in post.probabilities],
-                   sup_g=[tuple(tuple(int(a) for a in h) for h in gg) for gg in sup.genotypes], sup_p=[float(x) for x in sup.probabilities],
-                   mode=sup.mode_genotype(), af=post.allele_frequencies(), afd=post.allele_frequencies(dosage=True),
-                   inc=tb.replicate_incongruence(threshold=0.6), g=g, burn=burn)
+        hist = int(E.SymInt(E.fresh_int(ctx, "hist", 0, 3)))
+        res = _drive_asm(ac, g, burn, hist)
         return res
 
     first = True
@@ -243,7 +278,7 @@ def _run_asm(c, col):
         r = pr.value
         problems = _check_asm(c, r)
         if problems:
-            col.fail(site, problems[0][0], witness=dict(trace=r["g"].tolist(), burn=r["burn"], problems=[p[1] for p in problems][:3]), desc=problems[0][1])
+            col.fail(site, problems[0][0], witness=dict(trace=r["g"].tolist(), burn=r["burn"], hist=r["hist"], problems=[p[1] for p in problems][:3]), desc=problems[0][1])
         else:
             col.ok("assemble trace summaries == empirical distribution of sorted genotypes (trace, row order and burn-in solver-enumerated)")
 
@@ -269,7 +304,9 @@ def _check_asm(c, r):
         if not _eq(sup[s0], best) or set(sgot) != set(wantset) or any(not _eq(sgot[k], wantset[k]) for k in wantset):
             problems.append(("mode-support", "mode_genotype_support() is not the best-supported allele set with its genotypes"))
         mg, mp = r["mode"]
-        if not _eq(mp, max(wantset.values())) or not _eq(wantset.get(canon(mg), -1), mp):
+        if not wantset:
+            problems.append(("mode-support", "mode_genotype_support() reports genotypes that do not occur among the retained steps"))
+        elif not _eq(mp, max(wantset.values())) or not _eq(wantset.get(canon(mg), -1), mp):
             problems.append(("mode", "mode_genotype() is not the most probable genotype of the support"))
     for (uh, uf, uo), dosage in ((r["af"], False), (r["afd"], True)):
         seen = set()
@@ -382,26 +419,16 @@ def replay(v):
         if c["kind"] == "call":
             from mchap.calling import classes as rcc
 
-            trace = rcc.GenotypeAllelesMultiTrace(g, rnp.zeros(g.shape[:2]), c["A"])
-            tb = trace.burn(burn)
-            post = tb.posterior()
-            r = dict(post_g=[tuple(int(a) for a in x) for x in post.genotypes], post_p=[float(x) for x in post.probabilities], mode=post.mode(),
-                     mode_s=post.mode(genotype_support=True), arr=post.as_array(c["A"]), freqs=tb.posterior_frequencies(), inc=tb.replicate_incongruence(threshold=0.6), g=g, burn=burn)
+            r = _drive_call(rcc, g, burn, int(w.get("hist", 0)), c["A"])
             problems = _check_call(c, r)
         else:
             from mchap.assemble import classes as rac
 
-            trace = rac.GenotypeMultiTrace(g, rnp.zeros(g.shape[:2]))
-            tb = trace.burn(burn)
-            post = tb.posterior()
-            sup = post.mode_genotype_support()
-            r = dict(post_g=[tuple(tuple(int(a) for a in h) for h in gg) for gg in post.genotypes], post_p=[float(x) for x in post.probabilities],
-                     sup_g=[tuple(tuple(int(a) for a in h) for h in gg) for gg in sup.genotypes], sup_p=[float(x) for x in sup.probabilities],
-                     mode=sup.mode_genotype(), af=post.allele_frequencies(), afd=post.allele_frequencies(dosage=True), inc=tb.replicate_incongruence(threshold=0.6), g=g, burn=burn)
+            r = _drive_asm(rac, g, burn, int(w.get("hist", 0)))
             problems = _check_asm(c, r)
     except Exception as e:
         return v["kind"] == "exception", "real classes raised %r on trace %s burn %d" % (e, g.tolist(), burn)
-    return bool(problems), "trace=%s burn=%d: %s" % (g.tolist(), burn, [p[1] for p in problems][:2])
+    return bool(problems), "trace=%s burn=%d history=%s: %s" % (g.tolist(), burn, w.get("hist", 0), [p[1] for p in problems][:2])
 
 
 def _replay_post(v):
